@@ -2,7 +2,7 @@
 // Reads TLC transition-cover scripts (spec/CLImpl.tla) from stdin, replays each on fresh objects that live in
 // pre-filled storage, records every call, result and callback entry/exit as NDJSON for spec/TraceCL.tla.
 //
-// World (compile time):  W_THREADING 0 SingleThreading | 1 MultipleThreading | 2 GeneralThreading<SpinLock>
+// World (compile time):  W_THREADING 0 SingleThreading | 1 MultipleThreading | 2 GeneralThreading<SpinLock> | 3 tracked mutex / atomic / condvar (common.h)
 //                        W_CALLBACK  0 std::function   | 1 the tracked functor itself as Policies::Callback
 //                        W_FILL      byte the object storage holds before construction
 #include "common.h"
@@ -45,6 +45,8 @@ struct Pol
 	using Threading = eventpp::SingleThreading;
 #elif W_THREADING == 1
 	using Threading = eventpp::MultipleThreading;
+#elif W_THREADING == 3
+	using Threading = eventpp::GeneralThreading<vf::TrackedMutex, vf::TrackedAtomic, vf::TrackedCondVar>;
 #else
 	using Threading = eventpp::GeneralThreading<eventpp::SpinLock>;
 #endif
